@@ -37,9 +37,12 @@ type Opts struct {
 	ElectionRTT        uint64
 	SnapshotEntries    uint64
 	CompactionOverhead uint64
-	MaxInMemLogSize    uint64
-	LogCacheSize       int
-	RecoveryType       table.SnapshotRecoveryType
+	// the same for the metadata (catalogue) shard
+	MetaSnapshotEntries    uint64
+	MetaCompactionOverhead uint64
+	MaxInMemLogSize        uint64
+	LogCacheSize           int
+	RecoveryType           table.SnapshotRecoveryType
 	// Listener(node, table, rev) is called from every table replica's apply path.
 	Listener func(node uint64, table string, rev uint64)
 	// TableFS optionally supplies the table file system per node (default: fresh pebble MemFS).
@@ -201,7 +204,7 @@ func (c *Cluster) nodeConfig(id uint64, members map[uint64]string, gossip []stri
 			MaxInMemLogSize: o.MaxInMemLogSize, RecoveryType: o.RecoveryType,
 			AppliedIndexListener: lst,
 		},
-		Meta:         storage.MetaConfig{ElectionRTT: o.ElectionRTT, HeartbeatRTT: 1},
+		Meta:         storage.MetaConfig{ElectionRTT: o.ElectionRTT, HeartbeatRTT: 1, SnapshotEntries: o.MetaSnapshotEntries, CompactionOverhead: o.MetaCompactionOverhead},
 		LogCacheSize: o.LogCacheSize,
 		FS:           nfs,
 	}
@@ -223,6 +226,28 @@ func startNode(cfg storage.Config) (*Node, error) {
 func (c *Cluster) RestartNode(i int) error {
 	n := c.Nodes[i]
 	closeEngine(n.Engine)
+	var lastErr error
+	for attempt := 0; attempt < 20; attempt++ {
+		nn, err := startNode(n.Cfg)
+		if err == nil {
+			c.Nodes[i] = nn
+			ctx, cancel := context.WithTimeout(context.Background(), 30*time.Second)
+			defer cancel()
+			return nn.Engine.WaitUntilReady(ctx)
+		}
+		lastErr = err
+		time.Sleep(100 * time.Millisecond)
+	}
+	return lastErr
+}
+
+// StopNode shuts node i down (its files stay); StartNode brings it back.
+func (c *Cluster) StopNode(i int) {
+	closeEngine(c.Nodes[i].Engine)
+}
+
+func (c *Cluster) StartNode(i int) error {
+	n := c.Nodes[i]
 	var lastErr error
 	for attempt := 0; attempt < 20; attempt++ {
 		nn, err := startNode(n.Cfg)
